@@ -734,6 +734,9 @@ public:
       std::string gname = genericName(fd);
       FnState fs; _fs = &fs;
       fs.full = (!OptNoBodies) && _fnre.match(gname);
+      // file-local helpers (static functions / anonymous namespace) of the unit's main file always come with their body: they are what an extract-function refactoring of a
+      // selected function produces, and the rules look through calls to them (msa/ip.py)
+      if ((!OptNoBodies) && (!fs.full) && _sm.isInMainFile(_sm.getExpansionLoc(fd->getLocation())) && (!isa<CXXMethodDecl>(fd)) && (fd->getFormalLinkage() == InternalLinkage)) fs.full = true;
       _initIdx.clear();
 
       Out o;
